@@ -26,6 +26,7 @@ META = {
     ],
 }
 META["explanation"] += ' C01 also models IndexError from constant/range-bounded indexes into lists and tuples (seqlen.py): each site on the receive path is proven in bounds or reported.'
+META["explanation"] += ' C01.R4 also: every search for the line terminator is made on the carried buffer.'
 
 
 def check(ctx: Ctx) -> list[RuleResult]:
